@@ -216,6 +216,20 @@ def _main(a, prop, tier, seed, t0):
     for ident, tgt, o in hint_failures:
         undecided.append(f"{o['id']}: {o['status']} (proof hint of {ident} no longer valid; contract not decided)")
     # obligations left open: retry alone with a doubled budget (guards against load-induced timeouts), then classify
+    if len(open_obls) > 6 and not violations:
+        # many obligations open at once is not a load-induced timeout (those hit one or two): the changed code no longer meets its contracts.
+        # No retry (it would take minutes); classified directly by the baseline rule below.
+        for ident, tgt, o in open_obls:
+            if HINT_POLICY == "undecided" and o.get("kind") in HINT_KINDS:
+                undecided.append(f"{o['id']}: {o.get('reason', 'unknown')} (proof hint of {ident}; contract not decided)")
+            elif norm_id(o["id"]) in baseline:
+                violations.append({"obligation": o["id"], "contract": ident, "target": tgt,
+                                   "model": "no counter-model: solvers answered " + str(o.get("reason", "unknown")),
+                                   "what": f"obligation {o['id']} was discharged on the unchanged tree and is no longer provable "
+                                           f"({o.get('reason', 'unknown')})"})
+            else:
+                undecided.append(f"{o['id']}: {o.get('reason', 'unknown')}")
+        open_obls = []
     if open_obls and violations:
         # a counter-model was already found: the verdict is decided, the open obligations are not retried (keeps a failing run short)
         for ident, tgt, o in open_obls:
